@@ -28,6 +28,7 @@ type HRun struct {
 	Preempt int            `json:"preempt"`
 	Race    bool           `json:"race"`
 	Note    string         `json:"note"`
+	SolverMs int           `json:"solver_ms"`
 }
 
 type PropSpec struct {
@@ -121,6 +122,9 @@ func runCheck(repo, verif, prop, tier string, workers int, noReplay bool) int {
 			Params: r.Params, Sched: r.Sched, Preempt: r.Preempt, Race: r.Race, Known: knownIDs, Tier: tier}
 		if tier == "thorough" {
 			cfg.SolverTimeoutMs = 30000
+		}
+		if r.SolverMs > 0 {
+			cfg.SolverTimeoutMs = r.SolverMs
 		}
 		if cfg.Params == nil {
 			cfg.Params = map[string]int{}
@@ -566,4 +570,45 @@ func writeEvidence(verif, prop, tier string, seed int, spec PropSpec, runs []HRu
 	b, _ := json.MarshalIndent(ev, "", " ")
 	os.MkdirAll(filepath.Join(verif, "evidence"), 0o755)
 	os.WriteFile(filepath.Join(verif, "evidence", prop+".json"), b, 0o644)
+}
+
+func cmdReplay(args []string) {
+	fs := flag.NewFlagSet("replay", flag.ExitOnError)
+	repo := fs.String("repo", "/repo", "repository")
+	verif := fs.String("verif", "/verif", "verif dir")
+	file := fs.String("file", "", "replay json")
+	fs.Parse(args)
+	data, err := os.ReadFile(*file)
+	if err != nil {
+		fmt.Println("ENGINE-ERROR", err)
+		os.Exit(3)
+	}
+	var doc struct {
+		Harness string `json:"harness"`
+		Assert  struct {
+			Kind string `json:"kind"`
+		} `json:"assert"`
+	}
+	json.Unmarshal(data, &doc)
+	h := strings.TrimPrefix(doc.Harness, interp.RepoModule)
+	h = strings.TrimPrefix(h, "/")
+	pkg := "."
+	if i := strings.LastIndex(h, "."); i > 0 {
+		pkg = h[:i]
+	}
+	prog, err := interp.Load(*repo, filepath.Join(*verif, "harness"))
+	if err != nil {
+		fmt.Println("ENGINE-ERROR", err)
+		os.Exit(3)
+	}
+	bin, err := buildReplayBinary(*repo, *verif, prog, pkg, doc.Assert.Kind == "race")
+	if err != nil {
+		fmt.Println("ENGINE-ERROR", err)
+		os.Exit(3)
+	}
+	out, _ := runReplay(*repo, bin, pkg, *file)
+	fmt.Print(out)
+	if strings.Contains(out, "VERIF-ASSERT-FAIL") || strings.Contains(out, "VERIF-PANIC") {
+		os.Exit(1)
+	}
 }
